@@ -600,6 +600,9 @@ def correspond(ctx):
   for fixed in (7, 8, 9):       # three-table documents whose middle hop is a set of records (always run)
     evals += monitored_script(ctx, c05lib.twohop_history(random.Random(fixed))).evals
     n += 1
+  for hist in c05lib.unhashable_key_histories():     # lookup keys that become unhashable and hashable again
+    evals += monitored_script(ctx, hist).evals
+    n += 1
   n += 1
   for i in range(ctx.n(12, 200)):       # the small documents of named shapes (reference chains, blank references, ...)
     hr = random.Random(ctx.rng.randrange(1 << 30))
@@ -719,12 +722,14 @@ def search(ctx):
   # 2b. small documents of the named dependency shapes with dense edits
   t0 = time.time()
   budget = ctx.n(min(10, left / 2), 300)
-  for i in range(ctx.n(60, 4000)):
-    if time.time() - t0 > budget or len(ctx.violations) > 10:
+  fixed = c05lib.unhashable_key_histories()      # always run, whatever the seed and the time left
+  for i in range(len(fixed) + ctx.n(60, 4000)):
+    if i >= len(fixed) and (time.time() - t0 > budget or len(ctx.violations) > 10):
       break
     hr = random.Random(ctx.rng.randrange(1 << 30))
     pick = hr.random()
-    hist = c05lib.blankref_history(hr) if pick < 0.25 else c05lib.twohop_history(hr) if pick < 0.5 else c05lib.directed_history(hr)
+    hist = fixed[i] if i < len(fixed) else \
+      c05lib.blankref_history(hr) if pick < 0.25 else c05lib.twohop_history(hr) if pick < 0.5 else c05lib.directed_history(hr)
     e, _ = G.new_doc()
     done = []
     for b in hist:
